@@ -94,23 +94,23 @@ CLAIMS = {
          "in lock-step on the recorded answers (any difference in effects, their order, their arguments or the projected response is a correspondence failure) and the property's monitor is evaluated "
          "on the implementation's own trace by coqc (vm_compute). A panic anywhere in the real check (library code included) surfaces as OPanic in the recorded response and fails monitor and "
          'correspondence with the concrete input.'},
-    'C10': {'note': "Trusted: Coq kernel+vm_compute; hand-written store models (validated per operation); miniredis stands for Redis; Go harness. The Redis model's agreement with the abstract map is compared "
-         'on every explored sequence, not proved. Gallina axioms: none.',
+    'C10': {'note': "Trusted: Coq kernel+vm_compute; hand-written store models (validated per operation); miniredis stands for Redis; Go harness. "
+         'Gallina axioms: none.',
  'technique': 'Coq proof: abstract session map parameterised by a liveness rule; band lemmas (lia over Z.div) for the memory and the Redis rule; honoured-only-if-alive / live-is-honoured / '
-              'creation-time-fixed for any rule; the memory-store model equals the map under its rule for ALL operation sequences (simulation); correspondence: real stores under a virtual clock vs '
+              'creation-time-fixed for any rule; the memory-store model and the command-level Redis model equal the map under their rules for ALL operation sequences (simulations); correspondence: real stores under a virtual clock vs '
               'the models in lock-step + an observation-only band monitor + a system-level run through the real start-up wiring',
  'text': 'Machine-checked: C10_memory_rule_band, C10_redis_rule_band (never honoured after created+abs / last use+idle; alive whenever a whole second remains inside both), '
          'C10_honoured_only_if_alive, C10_live_session_is_honoured, C10_created_fixed (activity moves only the last-use stamp), C10_memory_store_follows_its_rule (refinement, all sequences, '
-         'arbitrary clock readings). Tie to the code on every run: ~1,500 random operation sequences (3-30 ops, clock advances landing on / 1 ns / 1 s around each limit, 12 (abs,idle) pairs incl. '
+         'arbitrary clock readings), C10_redis_store_follows_its_rule (refinement, all sequences with non-decreasing clocks). Tie to the code on every run: ~1,500 random operation sequences (3-30 ops, clock advances landing on / 1 ns / 1 s around each limit, 12 (abs,idle) pairs incl. '
          'zero) + all length-2 sequences over 2 ids x 6 ops x 3 advances, executed on the REAL memory store and the REAL Redis store (miniredis in step with the virtual clock), compared per '
          'operation with the Coq models of both stores (Redis at command level: HSET/HDEL/HSETNX/EXPIREAT in whole seconds) and judged by a band monitor that uses the observed results only; plus the '
          'store as assembled by NewSessionStoreFactory.PreRun with the real clock (2 s absolute, 1 s idle).'},
-    'C12': {'note': 'Trusted: as C10. Known finding (narrow, KNOWN-FINDING line): Redis ClearAuthorizationState on a missing session errs. Outside the well-formed guard Redis hides unparsable ID tokens / '
-         'incomplete login states (Example C12_refuted_unguarded); redis_refines_spec is compared, not proved.',
- 'technique': 'Coq proof: the abstract map without expiry IS the plain map (all sequences); plain-map laws; memory-store model refines the abstract map (simulation, all sequences); correspondence: '
+    'C12': {'note': 'Trusted: as C10. Fixed (33d4a84): Redis ClearAuthorizationState on a missing session erred. Outside the well-formed guard Redis hides unparsable ID tokens / '
+         'incomplete login states (Example C12_refuted_unguarded). The Redis theorem is about the command-level model (Store/Redis.v), which is compared with the real store on miniredis on every run.',
+ 'technique': 'Coq proof: the abstract map without expiry IS the plain map (all sequences); plain-map laws; the memory-store model AND the command-level Redis model refine the abstract map under their liveness rules (forward simulations, all sequences; Redis: non-decreasing clocks, well-formed values); correspondence: '
               'both real stores vs their models and vs the abstract map per operation, operations routed to two Redis store objects; linearizability of concurrent memory-store histories by witness '
               'order checked in Coq',
- 'text': 'Machine-checked: C12_spec_is_plain_map, C12_read_latest_write, C12_ids_independent, C12_remove_erases_all, C12_clear_keeps_tokens, C12_memory_refines_spec, C12_created_fixed. Tie to the '
+ 'text': 'Machine-checked: C12_spec_is_plain_map, C12_read_latest_write, C12_ids_independent, C12_remove_erases_all, C12_clear_keeps_tokens, C12_memory_refines_spec, C12_redis_refines_spec, C12_created_fixed. Tie to the '
          'code on every run: the same store-level sequences as C10 (incl. bounded-exhaustive short ones) on the real memory store and on two Redis store objects sharing one server (each operation '
          "routed to either: a store object holds no session state), each result compared with the store's Coq model AND with the abstract map under the store's liveness rule (well-formed values for "
          'Redis); ~150 concurrent histories (3-4 goroutines x 4-5 operations) of the real memory store for which the harness searches a linearization and Coq verifies it (permutation, real-time '
@@ -150,15 +150,15 @@ CLAIMS = {
          "(create, update, delete, being-deleted via finalizer, key-less, empty value, foreign namespace, unrelated names, resyncs) applied to controller-runtime's fake client and followed by the "
          "real Reconcile; after every event each filter's GetClientSecret() is compared with the controller model and with the reference in Coq; for every tenth configuration the Authorization "
          'header of a real authorization-code exchange is checked to carry the current value.'},
-    'C20': {'note': "Trusted: Coq kernel+vm_compute; hand-written pool model; Go's crypto/tls and x509; real-time waits (10 intervals of 40-80 ms); FNV-64a collision-freedom on explored keys. Known finding: a "
-         'later registration for the same file with different settings cancels the earlier watcher. The lookup-then-insert window of LoadTLSConfig under concurrent first loads is not explored. '
+    'C20': {'note': "Trusted: Coq kernel+vm_compute; hand-written pool model; Go's crypto/tls and x509; real-time waits (10 intervals of 40-80 ms); FNV-64a collision-freedom on explored keys. Fixed (eabedd4): a "
+         'later registration for the same file with different settings cancelled the earlier watcher. The lookup-then-insert window of LoadTLSConfig under concurrent first loads is not explored. '
          'Gallina axioms: none.',
  'technique': 'Coq proof on a model of LoadTLSConfig / updateCA / FileWatcher / BoolStrValue: first load builds exactly the expected trust, skip only if requested and no CA, identical settings '
-              'share, distinct settings get distinct objects (pool key injective), rotation reaches the pooled object at the next tick, superseded watcher stops; refutation witnesses for the old key '
-              'and for two settings on one file; correspondence: real pool + watcher + NewHTTPClient judged by real TLS handshakes against loopback servers of throw-away CAs',
+              'share, distinct settings get distinct objects (pool key injective), rotation reaches the pooled object at the next tick, a watcher is stopped only by a re-registration of the same settings; refutation witness for the old key; '
+              ' correspondence: real pool + watcher + NewHTTPClient judged by real TLS handshakes against loopback servers of throw-away CAs',
  'text': 'PARTIAL (decision and bookkeeping logic proved; X.509, handshake and timers are runtime facts exercised by the correspondence run). Machine-checked: C20_trust_matches_config, '
-         'C20_skip_only_if_requested_and_no_ca, C20_identical_settings_share, C20_distinct_settings_distinct, C20_rotation, C20_superseded_watcher_stops (+ Examples C20_old_pool_key_collides, '
-         'C20_rotation_refuted_two_settings_one_file). Tie to the code on every run: 5 designed scenarios (colliding concatenations, identical settings, single-watcher rotation A->B->A, two settings '
+         'C20_skip_only_if_requested_and_no_ca, C20_identical_settings_share, C20_distinct_settings_distinct, C20_rotation, C20_superseded_watcher_stops, C20_other_settings_do_not_stop_a_watcher (+ Examples C20_old_pool_key_collides, '
+         'C20_two_settings_one_file_both_follow). Tie to the code on every run: 6 designed scenarios (colliding concatenations, identical settings, single-watcher rotation A->B->A, two settings '
          'on one file, every spelling of skip_verify) and 40 random sequences of loads / CA-file rewrites / waits of ten intervals against the real pool and watcher; after every step every client '
          'built by NewHTTPClient at load time opens NEW connections to the TLS servers of CA A and CA B; load results (nil / error / object identity) and handshake outcomes are compared with the '
          'pool model and with a settings-and-file-history reference in Coq.'},
